@@ -90,22 +90,36 @@ pub fn filter_scan_rule() -> Vec<Rewrite> { vec![
     rw!("filter-scan";
         "(filter ?cond (scan ?table ?columns true))" =>
         "(scan ?table ?columns ?cond)"
-        if is_primary_key_range("?cond")
+        if is_primary_key_range("?cond", "?columns")
     ),
     rw!("filter-scan-1";
         "(filter (and ?cond1 ?cond2) (scan ?table ?columns true))" =>
         "(filter ?cond2 (scan ?table ?columns ?cond1))"
-        if is_primary_key_range("?cond1")
+        if is_primary_key_range("?cond1", "?columns")
     ),
 ]}
 
-/// Returns true if the expression is a primary key range.
-fn is_primary_key_range(expr: &str) -> impl Fn(&mut EGraph, Id, &Subst) -> bool {
-    let var = var(expr);
+/// Returns true if the expression is a range of the primary key and the key is the first column of
+/// the table and of the scan: the storage applies a pushed-down range to the first scanned column
+/// and finds the start row through the first column's block index.
+fn is_primary_key_range(expr: &str, columns: &str) -> impl Fn(&mut EGraph, Id, &Subst) -> bool {
+    let var_ = var(expr);
+    let columns = var(columns);
     move |egraph, _, subst| {
-        let Some((column, _)) = &egraph[subst[var]].data.range else {
+        let Some((column, _)) = &egraph[subst[var_]].data.range else {
             return false;
         };
+        let first_scanned = egraph[subst[columns]]
+            .as_list()
+            .first()
+            .and_then(|id| egraph[*id].nodes.iter().find_map(|e| match e {
+                Expr::Column(c) => Some(*c),
+                _ => None,
+            }));
+        // ... and looks the start row up in the block index of the table's first column
+        if first_scanned != Some(*column) || column.column_id != 0 {
+            return false;
+        }
         if let Some(col) = egraph.analysis.catalog.get_column(column) {
             col.is_primary()
         } else {
